@@ -138,7 +138,7 @@ def gen_cases(tier):
             'domain_via': vias[(i // 2) % 3], 'ext_via': vias[(i // 6) % 3],
             'offers': offers, 'foreign': [foreign[i % len(foreign)]],
             'tls_limits': [{}, {'max_tls': '1.2'}, {}, {'max_tls': '1.2'}] if i % 2 == 0 else [{'max_tls': '1.2'}, {}, {}, {}],
-            'refusals_then_valid': r.choice([40, 70, 130]) if i % 10 == 3 else 0,
+            'refusals_then_valid': r.choice([40, 70, 130]) if i % 10 in (3, 6) else 0,
         })
     return cases
 
